@@ -6,6 +6,7 @@ import (
 	"go/constant"
 	"go/token"
 	"go/types"
+	"sort"
 	"strings"
 
 	"golang.org/x/tools/go/ssa"
@@ -1146,4 +1147,207 @@ func (p *Program) rulePolyHoles(c *Check) {
 		}
 	}
 	c.Floor("E12.holes", n, 5, "Poly predicates with a hole scan")
+}
+
+// ruleCyclicNeighbours (C12/C18): while it walks the points of a series,
+// processPoints looks at the triple (points[i], points[i+1], points[i+2]) with
+// the indices taken cyclically — this is what makes the derived attributes
+// independent of where the ring starts.  The statements that select the
+// triple (the backward slice of the operands of the turn computation) are run
+// on the interpreter with the length of the series fixed to 3, 4, 5 and 6 and
+// the index to every position; the points selected must be points[(i+1) mod n]
+// and points[(i+2) mod n].  Only indices are concrete: coordinates stay
+// symbolic.
+func (p *Program) ruleCyclicNeighbours(c *Check) {
+	fn := p.Func("geometry", "processPoints")
+	fd, pkg := p.Decl(fn), p.DeclPkg(fn)
+	con := "geometry.processPoints#cyclic-neighbours"
+	if fd == nil || fd.Body == nil || len(fd.Type.Params.List) == 0 {
+		c.Undecided("E12.cyclic", con, "", "function not found")
+		return
+	}
+	info := pkg.TypesInfo
+	// the walking loop and its index
+	var loop ast.Stmt
+	var loopBody *ast.BlockStmt
+	var idxObj, elemObj types.Object
+	for _, st := range fd.Body.List {
+		if loop != nil {
+			break
+		}
+		switch f := st.(type) {
+		case *ast.ForStmt:
+			if as, ok := f.Init.(*ast.AssignStmt); ok && len(as.Lhs) == 1 {
+				if id, ok := as.Lhs[0].(*ast.Ident); ok {
+					loop, loopBody, idxObj = f, f.Body, info.ObjectOf(id)
+				}
+			}
+		case *ast.RangeStmt:
+			if id, ok := f.Key.(*ast.Ident); ok && id.Name != "_" {
+				loop, loopBody, idxObj = f, f.Body, info.ObjectOf(id)
+				if vid, ok := f.Value.(*ast.Ident); ok && vid.Name != "_" {
+					elemObj = info.ObjectOf(vid)
+				}
+			}
+		}
+	}
+	ptsObj := info.Defs[fd.Type.Params.List[0].Names[0]]
+	if loop == nil || idxObj == nil || ptsObj == nil {
+		c.Undecided("E12.cyclic", con, p.declPos(fn), "the loop over the points was not found")
+		return
+	}
+	// the turn computation: an assignment whose right side multiplies differences of X/Y coordinates of three point variables
+	pointVars := map[types.Object]bool{}
+	var turn *ast.AssignStmt
+	ast.Inspect(loopBody, func(n ast.Node) bool {
+		as, ok := n.(*ast.AssignStmt)
+		if !ok || len(as.Rhs) != 1 || turn != nil {
+			return true
+		}
+		vars := map[types.Object]bool{}
+		ast.Inspect(as.Rhs[0], func(m ast.Node) bool {
+			if sel, ok := m.(*ast.SelectorExpr); ok && (sel.Sel.Name == "X" || sel.Sel.Name == "Y") {
+				if id, ok := ast.Unparen(sel.X).(*ast.Ident); ok {
+					if o := info.ObjectOf(id); o != nil {
+						vars[o] = true
+					}
+				}
+			}
+			return true
+		})
+		if len(vars) == 3 {
+			turn, pointVars = as, vars
+		}
+		return true
+	})
+	if turn == nil {
+		c.Undecided("E12.cyclic", con, p.declPos(fn), "the turn computation over three point variables was not found")
+		return
+	}
+	// backward slice: top-level statements of the loop body (before the turn computation) that write one of the three variables
+	var slice []ast.Stmt
+	for _, st := range loopBody.List {
+		if st.Pos() >= turn.Pos() {
+			break
+		}
+		writes := mentions(st, func(m ast.Node) bool {
+			as, ok := m.(*ast.AssignStmt)
+			if !ok {
+				return false
+			}
+			for _, l := range as.Lhs {
+				if id, ok := l.(*ast.Ident); ok && (pointVars[info.ObjectOf(id)] || isIntLocal(info, id)) {
+					return true
+				}
+			}
+			return false
+		})
+		hasArith := mentions(st, func(m ast.Node) bool {
+			be, ok := m.(*ast.BinaryExpr)
+			if !ok {
+				return false
+			}
+			if be.Op != token.MUL && be.Op != token.QUO {
+				return false
+			}
+			_, isK := constInt(info, be)
+			return !isK
+		})
+		if writes && !hasArith {
+			slice = append(slice, st)
+		}
+	}
+	if len(slice) == 0 {
+		c.Undecided("E12.cyclic", con, p.declPos(fn), "the statements that select the triple were not found")
+		return
+	}
+	// integer locals defined before the loop (n := len(points), last := n - 1, …)
+	var prelude []ast.Stmt
+	for _, st := range fd.Body.List {
+		if st.Pos() >= loop.Pos() {
+			break
+		}
+		if as, ok := st.(*ast.AssignStmt); ok && as.Tok == token.DEFINE {
+			allInt := true
+			for _, l := range as.Lhs {
+				if id, ok := l.(*ast.Ident); !ok || !isIntLocal(info, id) {
+					allInt = false
+				}
+			}
+			if allInt {
+				prelude = append(prelude, st)
+			}
+		}
+	}
+	bad := ""
+	cases := 0
+	for n := int64(3); n <= 6 && bad == ""; n++ {
+		for i := int64(0); i < n && bad == ""; i++ {
+			cases++
+			func() {
+				defer func() {
+					if r := recover(); r != nil {
+						if e, ok := r.(e8err); ok {
+							bad = "the selection could not be evaluated for n=" + fmt.Sprint(n) + ", i=" + fmt.Sprint(i) + ": " + e.msg
+							return
+						}
+						if u, ok := r.(e8unknown); ok {
+							bad = "the selection depends on " + u.name + " (not only on the index and the length)"
+							return
+						}
+						panic(r)
+					}
+				}()
+				in := &e8interp{p: p, a: &e8assign{rank: map[string]int{}, bools: map[string]bool{}}, lens: map[string]int64{"points": n}}
+				fr := newFrame(pkg)
+				fr.vars[ptsObj] = in.newInput("points", ptsObj.Type())
+				fr.vars[idxObj] = &val{k: kInt, n: i, typ: idxObj.Type()}
+				if elemObj != nil {
+					base := fr.vars[ptsObj]
+					ev := in.newInput(fmt.Sprintf("points[%d]", i), elemObj.Type())
+					if base.f != nil {
+						base.f[fmt.Sprint(i)] = ev
+					}
+					fr.vars[elemObj] = ev
+				}
+				in.runBody(fr, prelude)
+				in.runBody(fr, slice)
+				// which points were selected
+				sel := map[string]bool{}
+				for o := range pointVars {
+					v := fr.vars[o]
+					if v == nil || v.k != kStruct || v.f["X"] == nil {
+						bad = fmt.Sprintf("for n=%d, i=%d the variable %s does not hold a point of the series", n, i, o.Name())
+						return
+					}
+					sel[strings.TrimSuffix(v.f["X"].name, ".X")] = true
+				}
+				for _, k := range []int64{i, (i + 1) % n, (i + 2) % n} {
+					if !sel[fmt.Sprintf("points[%d]", k)] {
+						var got []string
+						for s := range sel {
+							got = append(got, s)
+						}
+						sort.Strings(got)
+						bad = fmt.Sprintf("for a series of %d points, at index %d the triple examined is {%s}; the cyclic neighbours are points[%d], points[%d], points[%d]", n, i, strings.Join(got, ", "), i, (i+1)%n, (i+2)%n)
+						return
+					}
+				}
+			}()
+		}
+	}
+	if bad != "" {
+		c.Bad("E12.cyclic", con, p.Pos(loop.Pos()), bad+": the turn at the seam is computed from the wrong vertices, so convexity depends on where the ring starts")
+	} else {
+		c.OK("E12.cyclic", con, p.Pos(loop.Pos()), fmt.Sprintf("for n = 3…6 and every index (%d cases) the triple is points[i], points[(i+1) mod n], points[(i+2) mod n]", cases))
+	}
+}
+
+func isIntLocal(info *types.Info, id *ast.Ident) bool {
+	o := info.ObjectOf(id)
+	if o == nil {
+		return false
+	}
+	bt, ok := o.Type().Underlying().(*types.Basic)
+	return ok && bt.Info()&types.IsInteger != 0
 }
